@@ -20,6 +20,8 @@ def expected_content(shape, rel, sizes):
 
 
 def v1_order(shape):
+    if shape == "ungrouped3":
+        return list(SHAPES[shape])      # as listed: legal, but not grouped by directory (other tools write such lists)
     return sorted(SHAPES[shape])
 
 
@@ -167,6 +169,33 @@ def run_checker(E, w, meta_obj, content_path, tag):
     return result, yields
 
 
+def check_percentage(E, result, ref_matched, total, consumed, oblig):
+    """`result` (exact rational from the model, or a concrete float) must equal ref_matched/total*100."""
+    from fractions import Fraction
+    if isinstance(result, Rat):
+        if consumed is not None and tb(consumed == total):
+            E.check(conj(result.d == total, result.n == 100 * ref_matched) if tb(result.d == total)
+                    else result == Rat(100 * ref_matched, total),
+                    oblig, "reported %r, reference %r/%r*100" % (result, ref_matched, total))
+        else:
+            E.check(result == Rat(100 * ref_matched, total), oblig,
+                    "reported %r (consumed %r), reference %r/%r*100" % (result, consumed, ref_matched, total))
+        return
+    if isinstance(result, float) and isinstance(ref_matched, int) and isinstance(total, int):
+        E.check(result == ref_matched / total * 100, oblig, "reported %r, reference %r/%r*100" % (result, ref_matched, total))
+        return
+    fr = Fraction(result)
+    if isinstance(result, float) and fr.denominator != 1:
+        # a rounded float against symbolic integers: bracket it by a relative error far above one ulp
+        lo, hi = fr * (1 - Fraction(1, 2 ** 50)), fr * (1 + Fraction(1, 2 ** 50))
+        E.check(conj(100 * ref_matched * lo.denominator >= lo.numerator * total,
+                     100 * ref_matched * hi.denominator <= hi.numerator * total), oblig,
+                "reported %r, reference %r/%r*100" % (result, ref_matched, total))
+    else:
+        E.check(100 * ref_matched * fr.denominator == fr.numerator * total, oblig,
+                "reported %r, reference %r/%r*100" % (result, ref_matched, total))
+
+
 def job_recheck(E, prop, version, shape, P, K, dmg, source="ref", cpath="root", trailing_pad=False,
                 v2_single_length=True, _mutants=None):
     rels = SHAPES[shape]
@@ -221,31 +250,7 @@ def job_recheck(E, prop, version, shape, P, K, dmg, source="ref", cpath="root", 
             if ok:
                 ref_matched = ref_matched + n
         # (1) the reported number equals the reference share
-        if isinstance(result, Rat):
-            if tb(consumed == total):
-                E.check(conj(result.d == total, result.n == 100 * ref_matched) if tb(result.d == total)
-                        else result == Rat(100 * ref_matched, total),
-                        "C16.percentage", "reported %r, reference %r/%r*100" % (result, ref_matched, total))
-            else:
-                E.check(result == Rat(100 * ref_matched, total), "C16.percentage",
-                        "reported %r (consumed %r), reference %r/%r*100" % (result, consumed, ref_matched, total))
-        else:
-            # concrete result (float computed from concrete ints): compare exactly, then allow for the two roundings
-            from fractions import Fraction
-            if isinstance(result, float) and isinstance(ref_matched, int) and isinstance(total, int):
-                E.check(result == ref_matched / total * 100, "C16.percentage",
-                        "reported %r, reference %r/%r*100" % (result, ref_matched, total))
-            else:
-                fr = Fraction(result)
-                if isinstance(result, float) and fr.denominator != 1:
-                    # a rounded float against symbolic integers: bracket it by one ulp-scale relative error
-                    lo, hi = Fraction(result) * (1 - Fraction(1, 2 ** 50)), Fraction(result) * (1 + Fraction(1, 2 ** 50))
-                    E.check(conj(100 * ref_matched * lo.denominator >= lo.numerator * total,
-                                 100 * ref_matched * hi.denominator <= hi.numerator * total), "C16.percentage",
-                            "reported %r, reference %r/%r*100" % (result, ref_matched, total))
-                else:
-                    E.check(100 * ref_matched * fr.denominator == fr.numerator * total, "C16.percentage",
-                            "reported %r, reference %r/%r*100" % (result, ref_matched, total))
+        check_percentage(E, result, ref_matched, total, consumed, "C16.percentage")
         # (2) piece by piece (only where the checker's sequence lines up with the reference table)
         if len(yields) == len(table):
             for k, (ok, n) in enumerate(table):
